@@ -182,6 +182,12 @@ class HistoryRun(object):
   def _find(self, prop, sig, detail, rec, extra=None):
     rp = self.replay_obj()
     rp["bundle_index"] = rec.get("log_index", len(self.log) - 1)
+    # the bundles REQUESTED so far (without the undo / redo / Calculate bundles the oracles applied in between):
+    # what a regression-corpus entry is made of (harness/gx/corpus, `run_corpus`)
+    rp["user_bundles"] = [copy.deepcopy(r_["actions"]) for r_ in self.bundles
+                          if "fault" not in r_ and r_.get("actions") is not None and r_ is not rec]
+    if rec.get("actions") is not None:
+      rp["user_bundles"].append(copy.deepcopy(rec["actions"]))
     if extra:
       rp.update(extra)
     self.findings.append((prop, sig, detail, rp))
@@ -365,6 +371,19 @@ class HistoryRun(object):
       res = self.doc.apply([["Calculate"]])
       self.log.append([["Calculate"]])
       self.tie.bundle(self.doc, res, len(self.log) - 1, full=True)
+
+  def run_corpus(self, bundles):
+    """Apply a recorded list of requested bundles (a regression-corpus entry) with all of this run's oracles."""
+    for uas in bundles:
+      uas = copy.deepcopy(uas)
+      if "faults" in self.oracles:
+        rec = self.apply_with_faults(uas, ["corpus"])
+      else:
+        rec = self.apply(uas, ["corpus"])
+      if rec.get("abandon") or rec.get("undo_failed"):
+        break
+    self.end()
+    return self
 
   def run(self):
     gen = self.gen
